@@ -79,7 +79,10 @@ func pkgDecls(dir string) (map[string]sigEntry, error) {
 						out[d.Name.Name] = sigEntry{Kind: "func", Sig: show(ft)}
 					}
 				case *ast.GenDecl:
-					for _, s := range d.Specs {
+					// a const block that uses iota: every constant is identified by its position in the
+					// block together with the block's first (type, expression)
+					iotaHead := ""
+					for si, s := range d.Specs {
 						switch s := s.(type) {
 						case *ast.TypeSpec:
 							out[s.Name.Name] = sigEntry{Kind: "type", Sig: show(s.Type)}
@@ -88,6 +91,14 @@ func pkgDecls(dir string) (map[string]sigEntry, error) {
 							if d.Tok == token.CONST {
 								kind = "const"
 							}
+							if kind == "const" && len(s.Values) > 0 && strings.Contains(show(s.Values[0]), "iota") {
+								iotaHead = "= " + show(s.Values[0])
+								if s.Type != nil {
+									iotaHead = show(s.Type) + " " + iotaHead
+								}
+							} else if len(s.Values) > 0 {
+								iotaHead = ""
+							}
 							for i, n := range s.Names {
 								sig := ""
 								if s.Type != nil {
@@ -95,6 +106,9 @@ func pkgDecls(dir string) (map[string]sigEntry, error) {
 								}
 								if i < len(s.Values) {
 									sig += "= " + show(s.Values[i])
+								}
+								if kind == "const" && iotaHead != "" {
+									sig = fmt.Sprintf("%s @iota[%d]", iotaHead, si)
 								}
 								out[n.Name] = sigEntry{Kind: kind, Sig: sig}
 							}
@@ -399,6 +413,10 @@ func main() {
 				if d.sels[o] {
 					src = regexp.MustCompile(`\.`+regexp.QuoteMeta(o)+`\b`).ReplaceAllString(src, "."+n)
 				}
+				if d.refs[o] {
+					// a key of a composite literal: `old: value`
+					src = regexp.MustCompile(`(?m)^(\s*)`+regexp.QuoteMeta(o)+`:`).ReplaceAllString(src, "${1}"+n+":")
+				}
 			}
 			body.WriteString(src + "\n\n")
 			for r := range d.refs {
@@ -465,13 +483,8 @@ func renameAliases(sp *shimPkg, keep map[*shimDecl]bool, base, cur map[string]si
 	// names that are new in the current tree, by (kind, signature)
 	isNew := func(n string) bool { _, ok := base[n]; return !ok }
 	// 1. types first (their renames change the text of other signatures)
-	typeRen := map[string]string{}
-	subst := func(sig string) string {
-		for o, n := range typeRen {
-			sig = regexp.MustCompile(`\b`+regexp.QuoteMeta(o)+`\b`).ReplaceAllString(sig, n)
-		}
-		return sig
-	}
+	typeRen := typeRenames(base, cur)
+	subst := func(sig string) string { return substTypes(sig, typeRen) }
 	var names []string
 	for n := range refs {
 		names = append(names, n)
@@ -488,17 +501,9 @@ func renameAliases(sp *shimPkg, keep map[*shimDecl]bool, base, cur map[string]si
 		return c
 	}
 	for _, n := range names {
-		b, ok := base[n]
-		if !ok || b.Kind != "type" {
-			continue
-		}
-		if _, present := cur[n]; present {
-			continue
-		}
-		if c := find("type", b.Sig, ""); len(c) == 1 {
-			typeRen[n] = c[0]
-			out = append(out, fmt.Sprintf("// %s was renamed to %s (same definition)\ntype %s = %s", n, c[0], n, c[0]))
-			notes = append(notes, fmt.Sprintf("%s: type %s is now %s", sp.dir, n, c[0]))
+		if nn, ok := typeRen[n]; ok {
+			out = append(out, fmt.Sprintf("// %s was renamed to %s\ntype %s = %s", n, nn, n, nn))
+			notes = append(notes, fmt.Sprintf("%s: type %s is now %s", sp.dir, n, nn))
 		}
 	}
 	for _, n := range names {
@@ -561,33 +566,11 @@ func renameAliases(sp *shimPkg, keep map[*shimDecl]bool, base, cur map[string]si
 // their name (old name -> new name).  A name that would map to two different new names, or that is
 // still a field of some struct of the package, is left alone.
 func fieldRenames(rel string, base, cur map[string]sigEntry) (map[string]string, []string) {
-	fields := func(sig string) [][2]string {
-		expr, err := parser.ParseExpr(sig)
-		if err != nil {
-			return nil
-		}
-		st, ok := expr.(*ast.StructType)
-		if !ok || st.Fields == nil {
-			return nil
-		}
-		fset := token.NewFileSet()
-		var out [][2]string
-		for _, f := range st.Fields.List {
-			var b bytes.Buffer
-			_ = printer.Fprint(&b, fset, f.Type)
-			if len(f.Names) == 0 {
-				out = append(out, [2]string{"", b.String()})
-			}
-			for _, n := range f.Names {
-				out = append(out, [2]string{n.Name, b.String()})
-			}
-		}
-		return out
-	}
+	typeRen := typeRenames(base, cur)
 	stillUsed := map[string]bool{}
 	for _, e := range cur {
 		if e.Kind == "type" {
-			for _, f := range fields(e.Sig) {
+			for _, f := range structFields(e.Sig) {
 				stillUsed[f[0]] = true
 			}
 		}
@@ -602,11 +585,15 @@ func fieldRenames(rel string, base, cur map[string]sigEntry) (map[string]string,
 	sort.Strings(names)
 	for _, n := range names {
 		b := base[n]
-		c, ok := cur[n]
-		if !ok || b.Kind != "type" || c.Kind != "type" || b.Sig == c.Sig {
+		cn := n
+		if r, ok := typeRen[n]; ok {
+			cn = r
+		}
+		c, ok := cur[cn]
+		if !ok || b.Kind != "type" || c.Kind != "type" {
 			continue
 		}
-		bf, cf := fields(b.Sig), fields(c.Sig)
+		bf, cf := structFields(substTypes(b.Sig, typeRen)), structFields(c.Sig)
 		if bf == nil || len(bf) != len(cf) {
 			continue
 		}
@@ -628,14 +615,101 @@ func fieldRenames(rel string, base, cur map[string]sigEntry) (map[string]string,
 				bad[o] = true
 				continue
 			}
+			if _, ok := ren[o]; !ok {
+				notes = append(notes, fmt.Sprintf("%s: field %s.%s is now %s", rel, n, o, nn))
+			}
 			ren[o] = nn
-			notes = append(notes, fmt.Sprintf("%s: field %s.%s is now %s", rel, n, o, nn))
 		}
 	}
 	for o := range bad {
 		delete(ren, o)
 	}
 	return ren, notes
+}
+
+// structFields: (name, type) of every field of a struct type printed on one line; nil if not a struct.
+func structFields(sig string) [][2]string {
+	expr, err := parser.ParseExpr(sig)
+	if err != nil {
+		return nil
+	}
+	st, ok := expr.(*ast.StructType)
+	if !ok || st.Fields == nil {
+		return nil
+	}
+	fset := token.NewFileSet()
+	var out [][2]string
+	for _, f := range st.Fields.List {
+		var b bytes.Buffer
+		_ = printer.Fprint(&b, fset, f.Type)
+		if len(f.Names) == 0 {
+			out = append(out, [2]string{"", b.String()})
+		}
+		for _, n := range f.Names {
+			out = append(out, [2]string{n.Name, b.String()})
+		}
+	}
+	return out
+}
+
+func substTypes(sig string, ren map[string]string) string {
+	for o, n := range ren {
+		sig = regexp.MustCompile(`\b`+regexp.QuoteMeta(o)+`\b`).ReplaceAllString(sig, n)
+	}
+	return sig
+}
+
+// typeRenames: types of the pinned tree that exist in the current tree under a new name - same
+// definition, or (structs) the same field types in the same order with possibly renamed fields.
+func typeRenames(base, cur map[string]sigEntry) map[string]string {
+	ren := map[string]string{}
+	taken := map[string]bool{}
+	isNew := func(n string) bool { _, ok := base[n]; return !ok }
+	var names []string
+	for n, e := range base {
+		if e.Kind == "type" {
+			names = append(names, n)
+		}
+	}
+	sort.Strings(names)
+	for changed := true; changed; {
+		changed = false
+		for _, n := range names {
+			if _, present := cur[n]; present {
+				continue
+			}
+			if _, done := ren[n]; done {
+				continue
+			}
+			want := substTypes(base[n].Sig, ren)
+			wf := structFields(want)
+			var c []string
+			for m, e := range cur {
+				if e.Kind != "type" || !isNew(m) || taken[m] {
+					continue
+				}
+				if e.Sig == want {
+					c = append(c, m)
+					continue
+				}
+				if cf := structFields(e.Sig); wf != nil && len(cf) == len(wf) && len(wf) > 0 {
+					same := true
+					for i := range wf {
+						if wf[i][1] != cf[i][1] {
+							same = false
+						}
+					}
+					if same {
+						c = append(c, m)
+					}
+				}
+			}
+			if len(c) == 1 {
+				ren[n], taken[c[0]], changed = c[0], true, true
+			}
+		}
+	}
+	return ren
 }
 
 // forwarder: `func [(r recv)] old(p0 T0, …) results { [return] [r.]new(p0, …) }` from the printed type `func(T0, …) results`.
